@@ -1,4 +1,4 @@
-import VyxalModel.Lemmas.Sim
+import VyxalModel.Lemmas.PyBasic
 /-!
 # The hand-written templates of the closed core
 
@@ -177,6 +177,14 @@ def isTmpl165 : List PyStmt → Bool
   | _ => false
 theorem isTmpl165_sound (b : List PyStmt) (h : isTmpl165 b = true) : b = tmpl165 := by
   unfold isTmpl165 at h; split at h <;> first | rfl | simp at h
+
+/-- `†` (call) -/
+def tmpl8224 : List PyStmt := [(.assign [(.name "top")] (.call (.name "function_call") [(.name "stack"), (.name "ctx")] [])), (.ifS (.compare (.name "top") [(.isNot, .cnone)]) [(.expr (.call (.attr (.name "stack") "append") [(.name "top")] []))] [])]
+def isTmpl8224 : List PyStmt → Bool
+  | [(.assign [(.name "top")] (.call (.name "function_call") [(.name "stack"), (.name "ctx")] [])), (.ifS (.compare (.name "top") [(.isNot, .cnone)]) [(.expr (.call (.attr (.name "stack") "append") [(.name "top")] []))] [])] => true
+  | _ => false
+theorem isTmpl8224_sound (b : List PyStmt) (h : isTmpl8224 b = true) : b = tmpl8224 := by
+  unfold isTmpl8224 at h; split at h <;> first | rfl | simp at h
 
 def coreKeys : List Nat := [172, 33, 34, 36, 44, 58, 63, 68, 87, 94, 95, 100, 110, 117, 119, 8320, 8321, 8372, 8230, 163, 165]
 
